@@ -274,9 +274,120 @@ fn record(path: &str, seed: u64, n: usize) {
     f.flush().unwrap();
 }
 
+
+// ------------------------------------------------------------------------------------------------
+// recorder for spec/ProfileNumTrace.tla: numeric clauses of C07 on arbitrary arguments
+// ------------------------------------------------------------------------------------------------
+fn scaled(err: f64, bound: f64) -> (i64, i64) {
+    // integers for TLC: both scaled by the same factor so that the bound is about 1e6
+    if !(err.is_finite() && bound.is_finite()) || bound <= 0.0 {
+        return (1 << 30, 0);
+    }
+    let k = 1.0e6 / bound;
+    (((err.abs() * k).min(1.0e9)) as i64, 1_000_000)
+}
+fn record_num(path: &str, seed: u64, n: usize) {
+    let mut rng = Rng::new(seed);
+    let mut f = std::io::BufWriter::new(std::fs::File::create(path).expect("create trace"));
+    let mut done = 0;
+    let mut tries = 0;
+    while done < n && tries < 50 * n {
+        tries += 1;
+        let pos = |r: &mut Rng| (r.unit() * 2.0 - 1.0) as f32 * 1e4;
+        let lim = |r: &mut Rng| 10f64.powf(r.unit() * 5.0 - 2.0) as f32;
+        let vmax = lim(&mut rng);
+        let amax = lim(&mut rng);
+        let speed = |r: &mut Rng| match r.below(4) { 0 => 0.0, 1 => vmax * if r.next() & 1 == 0 { 1.0 } else { -1.0 }, _ => (r.unit() * 2.0 - 1.0) as f32 * vmax };
+        let start = State::new_raw(pos(&mut rng), speed(&mut rng), 0.0);
+        let end_pos = if rng.below(20) == 0 { start.position } else { pos(&mut rng) };
+        let end = State::new_raw(end_pos, speed(&mut rng), if rng.below(4) == 0 { rng.float(-3, 3) } else { 0.0 });
+        let mk = |s: State, e: State| catch(move || MotionProfile::new(s, e, Quantity::new(vmax, MILLIMETER_PER_SECOND), Quantity::new(amax, MILLIMETER_PER_SECOND_SQUARED)));
+        let p = match mk(start, end) { Ok(p) => p, Err(_) => continue };
+        let zerodisp = end.position == start.position;
+        let np = mk(-start, -end);
+        if np.is_err() && !zerodisp {
+            writeln!(f, "{}", json!({"k": "negpanic"})).unwrap();
+            continue;
+        }
+        done += 1;
+        let dir: i64 = if end.position < start.position { -1 } else { 1 };
+        writeln!(f, "{}", json!({"k": "prof", "dir": dir, "akey": f32_key(amax), "vmaxkey": f32_key(vmax), "v0key": f32_key(start.velocity),
+                                 "vekey": f32_key(end.velocity), "x0key": f32_key(start.position), "zerodisp": zerodisp || np.is_err()})).unwrap();
+        let (t1, t2, t3) = (first_t_with(&p, 2), first_t_with(&p, 3), first_t_with(&p, 4));
+        let mut ts: Vec<i64> = vec![0];
+        for b in [t1, t2, t3] {
+            for d in [-1i64, 0, 1] {
+                ts.push(b.saturating_add(d));
+            }
+        }
+        for _ in 0..24 {
+            ts.push(rng.range(0, t3.max(1)));
+        }
+        ts.sort();
+        ts.dedup();
+        for t in ts {
+            if t < 0 || t >= t3 {
+                continue;
+            }
+            let o = match observe(&p, Time(t)) { Ok(o) => o, Err(_) => { writeln!(f, "{}", json!({"k": "panic"})).unwrap(); break } };
+            let on = np.as_ref().ok().and_then(|q| observe(q, Time(t)).ok());
+            let kq = |x: Option<Quantity>| x.map(|q| f32_key(q.value)).unwrap_or(i64::MAX >> 34);
+            let (na, nv, npz, npc) = match &on { Some(o2) => (kq(o2.acc), kq(o2.vel), kq(o2.pos), o2.piece), None => (0, 0, 0, 0) };
+            if let Some(v) = o.vel {
+                // the speed limit, within the rounding of a * t in f32 (the recorder supplies the bound, TLC compares)
+                let t3s = t3 as f64 / 1e9;
+                let lim = (vmax as f64).max(start.velocity.abs() as f64).max(end.velocity.abs() as f64);
+                let vb = 8.0 * f32::EPSILON as f64 * lim.max(amax as f64 * t3s) + 4.0 * amax as f64 * 1e-9;
+                let (e, bd) = scaled((v.value.abs() as f64 - lim).max(0.0), vb);
+                writeln!(f, "{}", json!({"k": "b", "what": "speed within the largest of the limit and the start and end speeds", "err": e, "bound": bd})).unwrap();
+            }
+            writeln!(f, "{}", json!({"k": "q", "piece": o.piece, "atzero": t == 0, "acc": kq(o.acc), "vel": kq(o.vel), "pos": kq(o.pos),
+                                     "nacc": na, "nvel": nv, "npos": npz, "npiece": npc})).unwrap();
+        }
+        // clauses that need real arithmetic: continuity at the joins and arrival at the goal, with a bound from the magnitudes involved
+        let vq = |t: i64| p.get_velocity(Time(t)).map(|q| q.value as f64);
+        let pq = |t: i64| p.get_position(Time(t)).map(|q| q.value as f64);
+        let eps = f32::EPSILON as f64;
+        let t3s = t3 as f64 / 1e9;
+        let vscale = (vmax as f64).max(start.velocity.abs() as f64).max(end.velocity.abs() as f64).max(amax as f64 * t3s);
+        let pscale = (start.position.abs() as f64).max(end.position.abs() as f64).max(vscale * t3s).max(amax as f64 * t3s * t3s);
+        // one nanosecond of velocity / position change is legitimate across a join, as is the truncation of t1..t3 to whole nanoseconds
+        let vbound = 8.0 * eps * vscale + 4.0 * amax as f64 * 1e-9;
+        let pbound = 16.0 * eps * pscale + 4.0 * vscale * 1e-9;
+        for b in [t1, t2] {
+            if b > 0 && b < t3 {
+                if let (Some(a), Some(c)) = (vq(b - 1), vq(b)) {
+                    let (e, bd) = scaled(c - a, vbound);
+                    writeln!(f, "{}", json!({"k": "b", "what": "velocity continuous at a join", "err": e, "bound": bd})).unwrap();
+                }
+                if let (Some(a), Some(c)) = (pq(b - 1), pq(b)) {
+                    let (e, bd) = scaled(c - a, pbound);
+                    writeln!(f, "{}", json!({"k": "b", "what": "position continuous at a join", "err": e, "bound": bd})).unwrap();
+                }
+            }
+        }
+        if t3 > 0 {
+            if let Some(v) = vq(t3 - 1) {
+                let (e, bd) = scaled(v - end.velocity as f64, vbound);
+                writeln!(f, "{}", json!({"k": "b", "what": "velocity at completion equals the end velocity", "err": e, "bound": bd})).unwrap();
+            }
+            if let Some(x) = pq(t3 - 1) {
+                let (e, bd) = scaled(x - end.position as f64, pbound);
+                writeln!(f, "{}", json!({"k": "b", "what": "position at completion equals the end position", "err": e, "bound": bd})).unwrap();
+            }
+        }
+    }
+    f.flush().unwrap();
+}
+
 fn main() {
     silence_panics();
     let args: Vec<String> = std::env::args().collect();
+    if args.len() >= 5 && args[1] == "record" && args.get(5).map(|x| x == "num").unwrap_or(false) {
+        record_num(&args[2], args[3].parse().unwrap_or(1), args[4].parse().unwrap_or(100));
+        println!("SUMMARY {}", json!({"recorded": true}));
+        return;
+    }
     if args.len() >= 5 && args[1] == "record" {
         record(&args[2], args[3].parse().unwrap_or(1), args[4].parse().unwrap_or(100));
         println!("SUMMARY {}", json!({"recorded": true}));
